@@ -98,6 +98,10 @@ func checkWire(c *vk.Ctx, desc string, frames []rig.Frame, c0 int, role rig.Role
 			return
 		}
 		want := c0 + 1 + i
+		if fixref.GetS(frames[0].Fields, "141") == "Y" {
+			// the session announces a sequence reset in its own Logon: the numbering restarts at 1 with that message
+			want = 1 + i
+		}
 		got, err := strconv.Atoi(f.Seq)
 		if err != nil || got != want {
 			cls := "gap"
@@ -191,6 +195,10 @@ func scenario(c *vk.Ctx, i int) {
 		}
 	} else {
 		l = f.Links[0]
+	}
+	if (i/4)%3 == 1 {
+		l.LogonExtra = []fixref.Field{fixref.F("141", "Y")} // the peer asks for a sequence reset (ResetSeqNumFlag)
+		c.Count("sessions_whose_peer_logon_carries_ResetSeqNumFlag", 1)
 	}
 	if !l.Logon(role, 1, 5*time.Second) {
 		c.Inconclusive("logon did not complete: " + desc)
@@ -381,7 +389,7 @@ func main() {
 	// one GOMAXPROCS setting per shard
 	gmp := []int{16, 1, 2}[c.Shard%3]
 	runtime.GOMAXPROCS(gmp)
-	c.Rule("session i: either role on the full stack (real Initiator.Serve / Acceptor.ListenAndServe goroutines on a scripted net.Conn), logon by the scripted peer with N=1, then G in {1,2,4,8,16} goroutines x M in 3..16 application sends (a fresh message object per send, or in every second pair of scenarios one object per goroutine sent M times) in bursts spread over 2.6 s (so that heartbeat and test-request timers expire in between), while the peer injects TestRequests and damaged messages (replies and rejects originate on the inbound goroutine) or stays silent; handler buffer {0,1,10}; the peer reads instantly or takes 100/300 us per message (so that bursts fill the buffer); a store decorator sleeps 0..2 ms after the counter increment, inside Save and in an outgoing handler; one GOMAXPROCS value per shard {16,1,2}; optional second session on the same counter store. Oracle on the peer-side capture (reference splitter): 34 = c0+1,c0+2,... in wire order; 49/56; 52 parses, never goes backwards along the wire, is not later than the write, lies within [call,return] of its Send; porcupine counter model over the Send operations. distinct = (role, interleaving signature of source kinds on the wire, G, M, buffer); non-trivial = at least 2 source kinds on the wire")
+	c.Rule("session i: either role on the full stack (real Initiator.Serve / Acceptor.ListenAndServe goroutines on a scripted net.Conn), logon by the scripted peer with N=1 (every third group of four: its Logon carries ResetSeqNumFlag=Y; numbering must then still be consecutive from the session's first message, from 1 if the session itself announces a reset), then G in {1,2,4,8,16} goroutines x M in 3..16 application sends (a fresh message object per send, or in every second pair of scenarios one object per goroutine sent M times) in bursts spread over 2.6 s (so that heartbeat and test-request timers expire in between), while the peer injects TestRequests and damaged messages (replies and rejects originate on the inbound goroutine) or stays silent; handler buffer {0,1,10}; the peer reads instantly or takes 100/300 us per message (so that bursts fill the buffer); a store decorator sleeps 0..2 ms after the counter increment, inside Save and in an outgoing handler; one GOMAXPROCS value per shard {16,1,2}; optional second session on the same counter store. Oracle on the peer-side capture (reference splitter): 34 = c0+1,c0+2,... in wire order; 49/56; 52 parses, never goes backwards along the wire, is not later than the write, lies within [call,return] of its Send; porcupine counter model over the Send operations. distinct = (role, interleaving signature of source kinds on the wire, G, M, buffer); non-trivial = at least 2 source kinds on the wire")
 	c.Assume("precondition of the statement: no handler refuses, the stores do not fail; clocks: wall clock without steps during a 3 s scenario (2 ms tolerance)")
 	n := c.Pick(24, 500) // per shard
 	var wg sync.WaitGroup
